@@ -93,10 +93,8 @@ def parseHexDigits : Nat → List Char → Option Nat
 /-- strconv.ParseInt(s, 16, 32) with `e == nil` ↦ `some`: optional sign, at least one hex digit, no prefix, no
 underscores (base is explicit), magnitude within int32 (otherwise ErrRange, an error). -/
 def parseInt16 (s : List Char) : Option Int :=
-  let (neg, ds) := match s with
-    | '+' :: r => (false, r)
-    | '-' :: r => (true, r)
-    | r => (false, r)
+  let neg := s.head? == some '-'
+  let ds := if s.head? == some '+' || s.head? == some '-' then s.tail else s
   if ds.isEmpty then none else
   match parseHexDigits 0 ds with
   | none => none
@@ -105,19 +103,17 @@ def parseInt16 (s : List Char) : Option Int :=
     else (if n ≥ 2^31 then none else some (n : Int))
 
 /-- color.go:1107 `GetColor`.  `len(name) == 7` is the byte length; `name[0] == '#'` on a valid UTF-8 string is
-"first character is #". -/
+"first character is #" (`name[1:]` is then the rest of the characters). -/
 def getColor (name : String) : Nat :=
   match lookupName name with
   | some c => c
   | none =>
-    match name.toList with
-    | '#' :: rest =>
-      if name.utf8ByteSize == 7 then
-        match parseInt16 rest with
-        | some v => newHexColor v
-        | none => cDefault
-      else cDefault
-    | _ => cDefault
+    let cs := name.toList
+    if name.utf8ByteSize == 7 && cs.head? == some '#' then
+      match parseInt16 cs.tail with
+      | some v => newHexColor v
+      | none => cDefault
+    else cDefault
 
 /-! ### fmt.Sprintf("#%06X", int32) -/
 
